@@ -215,7 +215,7 @@ MANIFEST_TEXT['C16'] = dict(
 _finalise()
 
 PROPS['C02'] = dict(
-    modules=['harness.c02_tree'], level='other', files=['pysmi/parser/smi.py', 'pysmi/parser/dialect.py', 'pysmi/lexer/smi.py'],
+    modules=['harness.c02_tree', 'harness.c02_lex'], level='other', files=['pysmi/parser/smi.py', 'pysmi/parser/dialect.py', 'pysmi/lexer/smi.py'],
     explanation=XH + '. C02: sentence families for all declaration kinds with symbolic optional parts, list lengths, unbounded numbers and one '
                 'symbolic string go through the real LR parser; a layout-independent leaf oracle checks that every written value is in the tree. '
                 'Layout half: one-step invariants of the real lexer on symbolic text through a regex shim + z3 regex lemmas.',
@@ -230,4 +230,43 @@ MANIFEST_TEXT['C02'] = dict(
     smt=True,
     level_text='Tree half solver-exhaustive within bounds for every declaration kind; layout half: single lexer step from any state for every text up to the bound.',
     level_note='Trusted: CrossHair/z3, PLY driver, re (shim is differential-tested against re on the repo\'s MIB texts every run).')
+_finalise()
+
+PROPS['C11'] = dict(
+    modules=['harness.c11_reject', 'harness.c02_lex'], level='other',
+    files=['pysmi/parser/smi.py', 'pysmi/lexer/smi.py', 'pysmi/error.py'],
+    explanation=XH + '. C11: the real p_error, the real LR driver on mutated sentences (symbolic cut / deletion / duplication / replacement / '
+                'insertion position and symbolic replacement token type), the parse() wrapper with a scripted yacc object, and single steps of the '
+                'real lexer on symbolic text from every lexer state.',
+    functions=['pysmi.parser.smi.SmiV2Parser.p_error', 'pysmi.parser.smi.SmiV2Parser.parse', 'ply.yacc.LRParser.parse + p_* actions',
+               'ply.lex.Lexer.token + t_* actions incl. t_error, t_NUMBER, t_UPPERCASE_IDENTIFIER (forbidden words)'],
+    stubs=['FakeLexer (token level)', 'ShimRe / ShimReModule regex shim (character level)', 'scripted yacc object (parse wrapper)'],
+    bounds='one mutation per sentence of 28..53 tokens over 6 families; lexer steps on text of <=3..5 characters',
+    outside=['PLY driver loop itself (trusted)', 'texts longer than the bound for the character level', 'multiple simultaneous mutations'],
+    assumptions=[])
+MANIFEST_TEXT['C11'] = dict(
+    technique='CrossHair symbolic execution of p_error, of the LR driver on single-mutation sentences and of single lexer steps on symbolic text (regex shim)',
+    level_text='Solver-exhaustive within bounds: every mutation position x mutation kind x replacement token type for six sentence families; every '
+               'input of up to 3-5 characters from every lexer state.',
+    level_note='Trusted: CrossHair/z3, PLY, the shim (validated against re on the repo MIB texts each run).')
+_finalise()
+
+PROPS['C12'] = dict(
+    modules=['harness.c12_state', 'harness.c11_reject'], level='other',
+    files=TOK_FILES + ['pysmi/compiler.py'],
+    explanation=XH + '. C12: one inductive step from a SYMBOLIC scratch state of the generator objects (covers histories of any length), repeated '
+                'processing of the same tree, all iteration orders of the sets used while generating (hash seeds), and the lexer condition after '
+                'successful and failed parses.',
+    functions=['pysmi.codegen.symtable.SymtableCodeGen.genCode', 'pysmi.codegen.jsondoc.JsonCodeGen.genCode', 'pysmi.codegen.pysnmp.PySnmpCodeGen.genCode',
+               'pysmi.parser.smi.SmiV2Parser.parse / reset'],
+    stubs=TOK_STUBS + ['NondetSet: `set` in pysmi.codegen.symtable / intermediate replaced by a subclass with harness-chosen iteration order',
+                       'scripted yacc object for the parse() wrapper'],
+    bounds='modules with <=2 revisions, <=3 imported symbols; scratch state symbolic as listed; fakeidx unbounded',
+    outside=['CPython hashing itself', 'MibCompiler object state (it keeps none between compile() calls besides its components)', 'scripts/mibcopy.py'],
+    assumptions=['reachable scratch states are those __init__ and an earlier genCode() can leave behind'])
+MANIFEST_TEXT['C12'] = dict(
+    technique='CrossHair symbolic execution of one genCode() step from a symbolic object state vs a fresh object; set-order nondeterminism stub',
+    level_text='Inductive: one step from an arbitrary (symbolic) reachable scratch state equals a fresh object, so sequences of any length are covered '
+               'for the modelled module shapes; all set iteration orders (rotation/reversal family) for hash-seed independence.',
+    level_note='Trusted: CrossHair/z3. The invariant describing reachable states is part of the harness (too weak -> false alarms, never missed leaks within it).')
 _finalise()
